@@ -22,8 +22,16 @@ def parseCfg (kind lv fl : String) : Option (Bool × Cfg) := do
     pure (pipe, ⟨levels, cs.contains 's', cs.contains 'd', cs.contains 'l'⟩)
   else none
 
+/-- physical lines of the file: every written element is its rendering followed by `endl`; a text that contains line feeds
+(`^` in the script) spreads over several lines; an empty physical line is shown as `~` -/
+def physLines (st : St) : List String :=
+  (st.s.written.map (render st.cfg)).flatMap fun r => (r.splitOn "\n").map fun l => if l.isEmpty then "~" else l
+
 def showFile (st : St) : String :=
-  if st.s.written.isEmpty then "file=-" else "file=" ++ "|".intercalate (st.s.written.map (render st.cfg))
+  if st.s.written.isEmpty then "file=-" else "file=" ++ "|".intercalate (physLines st)
+
+/-- `^` in a scripted text stands for a line feed -/
+def scriptText (text : String) : List Char := if text == "-" then [] else text.toList.map fun c => if c == '^' then '\n' else c
 
 def run (st : St) : St := { st with s := runWriter V st.cfg (writerFuel st.s) st.s }
 
@@ -51,7 +59,7 @@ def step (st : St) (line : String) : St × String :=
       match p.toNat?, lev.toNat?, val.toNat? with
       | some p, some lev, some val =>
         if lev > 4 then (st, "bad-op") else
-        let t := if text == "-" then [] else text.toList
+        let t := scriptText text
         let s' := execAll V st.cfg [.submit p lev val t true true] st.s
         ({ st with s := s' }, if st.cfg.loggable lev then "ok" else "ret=1")
       | _, _, _ => (st, "bad-op")
@@ -61,7 +69,7 @@ def step (st : St) (line : String) : St × String :=
       match p.toNat?, lev.toNat?, val.toNat? with
       | some p, some lev, some val =>
         if lev > 4 then (st, "bad-op") else
-        let t := if text == "-" then [] else text.toList
+        let t := scriptText text
         let s' := execAll V st.cfg (callActions st.s p lev val t (op == "send")) st.s
         let r := match s'.rets.getLast? with
           | some (_, true) => "ret=1"
